@@ -1,0 +1,30 @@
+//go:build verif
+
+// Copyright 2025 NVIDIA CORPORATION
+// SPDX-License-Identifier: Apache-2.0
+
+package controllers
+
+import (
+	"k8s.io/apimachinery/pkg/runtime"
+	"k8s.io/client-go/tools/record"
+	"sigs.k8s.io/controller-runtime/pkg/client"
+
+	"github.com/NVIDIA/KAI-scheduler/pkg/podgrouper/podgroup"
+	"github.com/NVIDIA/KAI-scheduler/pkg/podgrouper/podgrouper"
+	pluginshub "github.com/NVIDIA/KAI-scheduler/pkg/podgrouper/podgrouper/hub"
+)
+
+// NewPodReconcilerForSim wires a PodReconciler the way SetupWithManager does, without a manager
+// (simulation harness only).
+func NewPodReconcilerForSim(c client.Client, scheme *runtime.Scheme, configs Configs, hub pluginshub.PluginsHub,
+	recorder record.EventRecorder) *PodReconciler {
+	return &PodReconciler{
+		Client:          c,
+		Scheme:          scheme,
+		podGrouper:      podgrouper.NewPodgrouper(c, c, hub),
+		PodGroupHandler: podgroup.NewHandler(c, configs.NodePoolLabelKey, configs.SchedulingQueueLabelKey),
+		configs:         configs,
+		eventRecorder:   recorder,
+	}
+}
